@@ -21,6 +21,7 @@ ASSUMPTIONS = [
     "only the documented escapes (\\xHH, \\uHHHH, \\n, \\r, \\t, \\\\, \\\", \\') are in the domain",
 ]
 SYNTAX = (0x22, 0x5C, ord("x"), ord("u"), 0x0A, ord(";"), ord("{"), ord("}"), ord("#"), 0x27, ord("n"), ord("0"))
+MALFORMED = ('"MZ\\xZZ"', '"abc\\x4"', '"PE\\u12"', '"q\\u00"', '"\\x"')
 HIST_ALPHA = (0x5C, 0x22, 0x27, 0x6E, 0x78, 0x34, 0x31, 0x0A, 0x3B, 0xE9)  # \\ " ' n x 4 1 LF ; e-acute
 BOUNDS = {"quick": {"syntax_len": 3, "dict_every": 8}, "thorough": {"syntax_len": 4, "dict_every": 1}}
 ATOMS = (("a", b"a"), ("\\x41", b"A"), ("\\xff", b"\xff"), ("A", b"A"), ("\\n", b"\n"), ("\\r", b"\r"), ("\\t", b"\t"), ("\\\\", b"\\"), ('\\"', b'"'), ("\\'", b"'"), ("'", b"'"), ("\\u0042", b"B"))
@@ -288,6 +289,16 @@ def chunk_history(chunk, acc):
             continue
         acc.states += 1
         text = b.decode("latin-1")
+        if i % 3 == 0:
+            # a malformed literal (truncated escape) decoded in between leaves nothing behind
+            from lark import Token
+
+            bad = MALFORMED[(i // 3) % len(MALFORMED)]
+            acc.transitions += 1
+            try:
+                cp.string_token_to_bytes(Token("STRING", bad))  # whatever it answers is not the subject here
+            except Exception:  # noqa
+                pass
         if i % 2 == 0:
             # text first, then bytes
             try:
